@@ -271,6 +271,8 @@ def run(cx):
     inst_sender_alloc_pair(cx, "C04.s")
     from props.C02 import inst_delivery_guards
     inst_delivery_guards(cx, "C04.t")
+    from props.shared import send_pending_covers_queues
+    send_pending_covers_queues(cx, "C04.u")
     with cx.instance("C04.e", "T1 GUARD", "fragment ids and sizes are validated before reassembly (datagram_is_valid clauses, try_add under it)", floor=3) as inst:
         from props.C03 import check_validators
         inst.site("<shared>", None, "C03.V.datagram")
